@@ -1,6 +1,7 @@
 import Driver.Common
 import QlibcModel.Conf.Ini
 import QlibcModel.Conf.Aconf
+import QlibcModel.Conf.FileRead
 open Qlibc Qlibc.Conf
 
 /-!
@@ -9,6 +10,8 @@ open Qlibc Qlibc.Conf
     ini <sep> <doc> [<name>=<value> ...]   ->  ok <n> <name>=<value> ...
     inif <sep> <mainpath> [<path>=<content> ...]   ->  ok <n> <name>=<value> ... | null
     ac <flags> <defcb> <doc> [<opt> ...]   ->  add <k> ret <n> <line|-> <msg|-> cbs <m> <cb> ...
+    acp <pathlen> <flags> <defcb> <doc> [<opt> ...]   the same (the path is not part of the result line)
+    fread <nbytes|-> <content>             ->  ok <n> <data> <terminator> | null
 -/
 namespace Driver.Conf
 
@@ -84,12 +87,27 @@ def runAc (flags defcb doc : String) (opts : List String) : String :=
         s!"add {os.length} {res} cbs {evs.length}" ++ String.join (evs.map showCb)
   | _, _ => "bad-op"
 
+def runFread (nb content : String) : String :=
+  match arg content with
+  | .ok c =>
+    let n : Option Nat := if nb == "-" then none else nb.toNat?
+    match FileRead.qfileRead n c with
+    | .error f => faultStr f
+    | .ok none => "null"
+    | .ok (some (blk, cnt)) =>
+      -- the harness prints `*nbytes` bytes, or up to the first NUL when no count was asked for
+      let k := if n.isSome then cnt else (blk.takeWhile (· != 0)).length
+      s!"ok {k} {hx (blk.take k)} {hx ((blk.drop k).take 1)}"
+  | _ => "bad-op"
+
 def step (_ : Unit) (ws : List String) : Unit × String :=
   let out : String :=
     match ws with
     | "ini" :: sep :: doc :: envs => runIni sep doc envs
     | "inif" :: sep :: main :: files => runInif sep main files
     | "ac" :: flags :: defcb :: doc :: opts => runAc flags defcb doc opts
+    | "acp" :: _ :: flags :: defcb :: doc :: opts => runAc flags defcb doc opts
+    | "fread" :: nb :: content :: [] => runFread nb content
     | _ => "bad-op"
   ((), out)
 
